@@ -170,7 +170,7 @@ func (d *Decoder) readRef(tag byte) (reflect.Value, error) {
 		return _zeroValue, err
 	}
 	idx := int(index)
-	if len(d.refList) <= idx {
+	if idx < 0 || len(d.refList) <= idx {
 		return _zeroValue, newCodecError("readRef", "ref index out of bound, max %d, but got %d", len(d.refList), index)
 	}
 
